@@ -20,7 +20,7 @@ NT_RULE = ('state = (T, P, n) log-uniform in 50-3000 K, 1e-3-1e3 bar, 1e-3-1e3 m
            'sub-/super-critical isotherms; non-trivial = sub-critical state with three real roots or a '
            'liquid-root evaluation; distinct = distinct canonical JSON of the case')
 REQUIRED_ORACLES = ['Z1', 'Z2', 'Z2root', 'Z3', 'Z4', 'Z5']
-REQUIRED_CLASSES = ['roots:3', 'roots:1', 'T<Tc', 'T>Tc', 'root:liquid', 'root:gas', 'from_critical', 'state:dense_supercritical', 'state:light_gas_hot']
+REQUIRED_CLASSES = ['roots:3', 'roots:1', 'T<Tc', 'T>Tc', 'root:liquid', 'root:gas', 'from_critical', 'state:dense_supercritical', 'state:light_gas_hot', 'state:critical_exact']
 REQUIRED_PROBES = ['vanDerWaalsEOS.get_Vm', 'IdealGasEOS.get_V']
 ASSUMPTIONS = ['back-substitution tolerance = 1e-10 * |dX/dlnV| + 1e-11*|X|: the cubic solver returns a '
                'volume with relative error <~1e-12, and the map V->P is ill-conditioned on the liquid root '
@@ -48,6 +48,8 @@ def directed(tier):
     D.append({'kind': 'vdw', 'a': 0.0248, 'b': 2.66e-5, 'T': 1500.0, 'P': 50.0, 'n': 2.0})      # H2, hot
     D.append({'kind': 'vdw', 'a': 0.3640, 'b': 4.267e-5, 'T': 320.0, 'P': 150.0, 'n': 1.0})     # CO2 dense supercritical
     D.append({'kind': 'vdw', 'a': 0.3640, 'b': 4.267e-5, 'T': 350.0, 'P': 300.0, 'n': 0.5})
+    D.append({'kind': 'critical_exact', 'a': 0.3640, 'b': 4.267e-5, 'ns': [1.0, 0.02, 2.5, 250.0]})
+    D.append({'kind': 'critical_exact', 'a': 0.00346, 'b': 2.38e-5, 'ns': [0.5, 7.0]})
     D.append({'kind': 'ideal', 'T': 298.15, 'P': 1.0, 'n': 1.0})
     D.append({'kind': 'ideal', 'T': 3000.0, 'P': 1e-3, 'n': 1e3})
     D.append({'kind': 'defaults'})
@@ -55,6 +57,9 @@ def directed(tier):
 
 
 def generate(rng, tier):
+    if rng.random() < 0.01:
+        return {'kind': 'critical_exact', 'a': _lu(rng, 0.003, 3), 'b': _lu(rng, 1e-5, 2e-4),
+                'ns': [_lu(rng, 1e-3, 1e3) for _ in range(3)]}
     k = rng.choice(['vdw', 'vdw', 'vdw', 'crit', 'crit', 'ideal'])
     T, P, n = _lu(rng, 50, 3000), _lu(rng, 1e-3, 1e3), _lu(rng, 1e-3, 1e3)
     if k == 'ideal':
@@ -293,6 +298,39 @@ def _vdw(spec, ctx):
         V3 = ctx.call('Z3', m, e.get_V, T=T, P=P, n=3 * n, gas_phase=gas)
         if V3 is not core.NOVALUE:
             ctx.close('Z3', V3 / V, 3.0, 1e-12, m)
+    # --- history: the user re-assigns the public parameters of a live object and solves the same state again
+    #     (nothing may be remembered from the first solve): compare with a fresh object
+    if True in picked:
+        a2, b2 = a * 1.3, b * 0.8
+        e.a, e.b = a2, b2
+        fresh = vanDerWaalsEOS(a=a2, b=b2)
+        for gas in (True, False):
+            m = {'eos': 'vdw', 'root': 'gas' if gas else 'liquid', 'history': 'parameters_reassigned'}
+            v1 = ctx.call('Z2', dict(m, step='get_V'), e.get_V, T=T, P=P, n=n, gas_phase=gas)
+            v2 = ctx.call('Z2', dict(m, step='get_V'), fresh.get_V, T=T, P=P, n=n, gas_phase=gas)
+            if core.NOVALUE not in (v1, v2):
+                ctx.check('Z2', float(v1) == float(v2), dict(m, step='get_V'), live=float(v1), fresh=float(v2))
+        e.a, e.b = a, b
+    # --- batches of states: ndarray arguments give the element-wise results and are left untouched
+    if True in picked:
+        import numpy as np
+        Vg = picked[True] * n
+        Parr = np.array([P, P * 1.5, P * 0.5])
+        keep = Parr.copy()
+        m = {'eos': 'vdw', 'what': 'ndarray_argument'}
+        Tarr = ctx.call('Z2', dict(m, step='get_T'), e.get_T, V=Vg, P=Parr, n=n)
+        if Tarr is not core.NOVALUE:
+            want = [float(e.get_T(V=Vg, P=float(p_), n=n)) for p_ in keep]
+            ctx.close('Z2', np.asarray(Tarr, float), want, 1e-12, dict(m, step='get_T'))
+            ctx.check('Z2', np.array_equal(Parr, keep), dict(m, step='get_T', what2='argument_modified'),
+                      before=keep.tolist(), after=Parr.tolist())
+        Tarr2 = np.array([T, T * 1.1])
+        keepT = Tarr2.copy()
+        Pa = ctx.call('Z2', dict(m, step='get_P'), e.get_P, T=Tarr2, V=Vg, n=n)
+        if Pa is not core.NOVALUE:
+            want = [float(e.get_P(T=float(t_), V=Vg, n=n)) for t_ in keepT]
+            ctx.close('Z2', np.asarray(Pa, float), want, 1e-12, dict(m, step='get_P'))
+            ctx.check('Z2', np.array_equal(Tarr2, keepT), dict(m, step='get_P', what2='argument_modified'))
     if True in picked and False in picked:
         ctx.check('Z2root', picked[True] >= picked[False], {'eos': 'vdw', 'what': 'gas<liquid'},
                   gas=picked[True], liquid=picked[False])
@@ -310,8 +348,35 @@ def _vdw(spec, ctx):
                       + 1e-9 * Vi, {'eos': 'vdw', 'what': 'second_virial'}, Vm=picked[True], Vi=Vi, eps=eps)
 
 
+def _critical_exact(spec, ctx):
+    """The state exactly at (Tc, Pc) as the object's own getters report them.  The cubic has a triple
+    root there (ill-conditioned), so only the clauses that do not depend on the root's accuracy are
+    asserted: V proportional to n, get_n(get_V(n)) = n, Vc = 3 n b."""
+    from pmutt.eos import vanDerWaalsEOS
+    ctx.cls('state:critical_exact')
+    e = vanDerWaalsEOS(a=spec['a'], b=spec['b'])
+    Tc, Pc = e.get_Tc(), e.get_Pc()
+    m = {'eos': 'vdw', 'state': 'critical_exact'}
+    vs = {}
+    for n in spec['ns']:
+        v = ctx.call('Z3', m, e.get_V, T=Tc, P=Pc, n=n)
+        if v is core.NOVALUE:
+            return
+        vs[n] = float(v)
+        nb = ctx.call('Z2', dict(m, step='get_n'), e.get_n, V=vs[n], T=Tc, P=Pc)
+        if nb is not core.NOVALUE:
+            ctx.close('Z2', float(nb) / n, 1.0, 1e-9, dict(m, step='get_n'))
+        ctx.close('Z5', e.get_Vc(n=n) / (3 * n * spec['b']), 1.0, 1e-12, dict(m, step='get_Vc'))
+    n0 = spec['ns'][0]
+    for n in spec['ns'][1:]:
+        ctx.close('Z3', (vs[n] / n) / (vs[n0] / n0), 1.0, 1e-9, m, n=n, V=vs[n], V0=vs[n0])
+    ctx.nontrivial()
+
+
 def run_case(spec, ctx):
     k = spec['kind']
+    if k == 'critical_exact':
+        return _critical_exact(spec, ctx)
     if k == 'ideal':
         _ideal(spec, ctx)
     elif k == 'defaults':
